@@ -100,7 +100,7 @@ def run(f, fixture, rep, cfg, tier):
         "left neighbour may contain the separator must search from the right; the normalised form's epoch operand is \"0\" "
         "exactly on the is_empty branch; panic-site audit of the parsing functions.")
     rep.trusted = ["rustc nightly MIR / expanded AST", "str::split_once / rsplit_once semantics"]
-    for r, d in (("R1", "CompressionType Display/FromStr tables"), ("R2", "separator agreement"), ("R3", "search direction"), ("R4", "normalised epoch"), ("R5", "no panic")):
+    for r, d in (("R1", "CompressionType Display/FromStr tables"), ("R2", "separator agreement"), ("R3", "search direction"), ("R4", "normalised epoch"), ("R5", "no panic"), ("R6", "components stored as given")):
         rep.rule(r, d)
 
     # ---- R1 ---------------------------------------------------------------------------------
@@ -183,6 +183,44 @@ def run(f, fixture, rep, cfg, tier):
     uses_evr = any(c.decl.endswith("Evr::<'a>::as_normalized_form") and render(tn.term(c.args[0])) == "self.evr" for c in nn.calls())
     rep.check(uses_evr and template_for(f, nn) == ["{}-{}.{}"], "R4", "nevra|normalized", "Nevra's normalised form embeds Evr's normalised form",
               "Nevra::as_normalized_form no longer embeds Evr::as_normalized_form(self.evr) in name-evr.arch", nn.span)
+
+    # ---- R6 the constructors and accessors carry the components through unchanged -----------------------------
+    def norm(t):
+        for _ in range(3):
+            t = re.sub(r"version::Evr::<'a>::new\(([^(){}]*)\)", r"version::Evr::Evr{\1}", t)
+            t = re.sub(r"version::Nevra::<'a>::new\(([^(){},]*), ([^(){}]*), ([^(){},]*)\)", r"version::Nevra::Nevra{\1, version::Evr::Evr{\2}, \3}", t)
+        return t
+    RET = {"k": "copy", "l": 0, "p": []}
+    shapes = [
+        (r"version::Evr::<'a>::new$", "version::Evr::Evr{$1, $2, $3}"),
+        (r"version::Evr<'a> as std::convert::From<\(&'a str, &'a str, &'a str\)>>::from$", "version::Evr::Evr{$1.0, $1.1, $1.2}"),
+        (r"version::Evr::<'a>::parse$", "version::Evr::<'a>::parse_values($1)"),
+        (r"version::Nevra::<'a>::new$", "version::Nevra::Nevra{$1, version::Evr::Evr{$2, $3, $4}, $5}"),
+        (r"version::Nevra::<'a>::parse$", "version::Nevra::Nevra{PV.0, version::Evr::Evr{PV.1, PV.2, PV.3}, PV.4}"),
+        (r"version::Evr::<'a>::values$", "tuple{version::Evr::<'a>::epoch($1), version::Evr::<'a>::version($1), version::Evr::<'a>::release($1)}"),
+        (r"version::Evr::<'a>::epoch$", "$1.epoch"), (r"version::Evr::<'a>::version$", "$1.version"), (r"version::Evr::<'a>::release$", "$1.release"),
+        (r"version::Nevra::<'a>::name$", "$1.name"), (r"version::Nevra::<'a>::arch$", "$1.arch"), (r"version::Nevra::<'a>::evr$", "$1.evr"),
+    ]
+    for rx, want in shapes:
+        bs = [b for b in f.find(rx=rx) if b.kind != "closure"]
+        if not rep.anchor(len(bs) == 1, "R6", "function /%s/" % rx):
+            continue
+        b = bs[0]
+        got = render(TermBuilder(b).term(RET))
+        for n in range(b.argc, 0, -1):
+            nm = b.local_name(n) or ("_%d" % n)
+            got = re.sub(r"(?<![\w:.$])%s(?![\w:])" % re.escape(nm), "$%d" % n, got)
+        got = got.replace("version::Nevra::<'a>::parse_values($1)", "PV")
+        got = norm(got)
+        rep.check(got == want, "R6", "carry|%s" % fmt_key(b.path), "%s carries its components through unchanged" % fmt_key(b.path),
+                  "%s computes %s (expected %s): a component is substituted, reordered or transformed" % (b.path, got[:240], want), b.span)
+    # the splitters return slices of their input; the only literal allowed is the empty string for a missing part
+    for rx in (r"version::Evr::<'a>::parse_values$", r"version::Nevra::<'a>::parse_values$"):
+        for b in [x for x in f.find(rx=rx) if x.kind != "closure"]:
+            t = render(TermBuilder(b).term(RET))
+            lits = set(re.findall(r'"((?:[^"\\]|\\.)*)"', t))
+            rep.check(lits <= {""} and "phi(" not in t, "R6", "slices|%s" % fmt_key(b.path), "%s returns pieces of its input (a missing part is \"\")" % fmt_key(b.path),
+                      "%s can return the literal(s) %s or a value chosen by a test: a component does not come from the text" % (b.path, sorted(lits - {""})), b.span)
 
     # ---- R5 ------------------------------------------------------------------------------------------
     roots = []
